@@ -138,10 +138,32 @@ pub fn mutate(rng: &mut Prng, text: &str) -> String {
 /// it compiles) is decided by the golden run; what matters is that every observer - library in any
 /// process, `simc` - agrees about these exact bytes.
 pub fn layout(rng: &mut Prng, text: &str) -> String {
-    let nl: Vec<usize> = text.char_indices().filter(|(_, c)| *c == '\n').map(|(i, _)| i).collect();
+    let kind = rng.below(14);
+    layout_kind(rng, text, kind)
+}
+
+/// Number of layout kinds (`layout_kind` takes kind modulo this).
+pub const LAYOUT_KINDS: usize = 14;
+
+pub fn layout_kind(rng: &mut Prng, text: &str, kind: usize) -> String {
+    // line ends that are followed by a line with code on it (so that what happens to the
+    // terminator, or to a comment inserted there, can matter)
+    let all_nl: Vec<usize> = text.char_indices().filter(|(_, c)| *c == '\n').map(|(i, _)| i).collect();
+    let nl: Vec<usize> = {
+        let v: Vec<usize> = all_nl
+            .iter()
+            .copied()
+            .filter(|i| {
+                let rest = &text[i + 1..];
+                let line = rest.lines().next().unwrap_or("").trim();
+                !line.is_empty() && !line.starts_with("//")
+            })
+            .collect();
+        if v.is_empty() { all_nl } else { v }
+    };
     let ws: Vec<usize> = text.char_indices().filter(|(_, c)| *c == ' ' || *c == '\n').map(|(i, _)| i).collect();
     let at = |rng: &mut Prng, v: &[usize]| if v.is_empty() { 0 } else { *rng.pick(v) };
-    match rng.below(14) {
+    match kind % LAYOUT_KINDS {
         0 => {
             // one LF becomes a lone CR
             let i = at(rng, &nl);
